@@ -275,6 +275,19 @@ func slice(fr *frame, x, lo, hi, max value) value {
 		}
 		x = fr.i.p.materialize(fr, ab)
 	}
+	if ac, ok := x.(*absCat); ok {
+		// a rope: case-split the length of every abstract part (bounded) and flatten
+		var flat []value
+		for _, part := range ac.parts {
+			switch pt := part.(type) {
+			case []value:
+				flat = append(flat, pt...)
+			case *absBytes:
+				flat = append(flat, fr.i.p.materialize(fr, pt)...)
+			}
+		}
+		x = flat
+	}
 	var Len, Cap int
 	switch x := x.(type) {
 	case string:
